@@ -1,5 +1,5 @@
 (** C03 — No lost updates; documented conflict winners, independent of sync order. *)
-From TC Require Import Model.Rebase Proofs.TransformP Proofs.RebaseP Proofs.ConflictP Proofs.SyncP2.
+From TC Require Import Model.Rebase Proofs.TransformP Proofs.RebaseP Proofs.ConflictP Proofs.SyncP2 Proofs.Tp2P.
 
 (** The complete conflict table: on operations valid in a common state each
     operation survives the transformation unless the other one has the same
@@ -49,18 +49,31 @@ Theorem C03_causal_override : forall s u p va ta vb tb,
   apply (apply s (SUpdate u p va ta)) (SUpdate u p vb tb) = apply s (SUpdate u p vb tb).
 Proof. exact sequential_override. Qed.
 
-(** Statement kept visible, NOT proved here (see DESIGN.md section 9): the
-    converged state of three replicas is the same for all six sync orders.
-    It is tested exhaustively on small scopes by the correspondence check. *)
-Definition C03_order_independent_3_statement : Prop :=
-  forall (s : db) (la lb lc : list sop),
+(** Three replicas with arbitrary concurrent valid lists: the converged state is
+    the same for all six orders in which they synchronise.  [sync3 s x y z] is
+    the state after x, y, z synchronised in this order (the chain holds x, then
+    y rebased over it, then z rebased over both).  Proved from TP2 for single
+    operations valid in a common state (Proofs/Tp2P.v, [tp2]) lifted to lists
+    through the residual algebra of [rebase] ([cube_all]). *)
+Theorem C03_tp2 : forall (s : db) (a b c : sop),
+  validb s a = true -> validb s b = true -> validb s c = true ->
+  (tfo (transform c a).1 (transform b a).1).1 = (tfo (transform c b).1 (transform a b).1).1.
+Proof. exact tp2. Qed.
+
+Theorem C03_order_independent_3 : forall (s : db) (la lb lc : list sop),
   valid_seqb s la = true -> valid_seqb s lb = true -> valid_seqb s lc = true ->
-  let after2 x y := (rebase transform x y).2 in
-  (* A, B, C  versus  B, A, C: C rebases over the two versions on the chain *)
-  applyl (applyl (applyl s la) (after2 la lb))
-         (rebase transform (after2 la lb) (rebase transform la lc).2).2
-  = applyl (applyl (applyl s lb) (after2 lb la))
-         (rebase transform (after2 lb la) (rebase transform lb lc).2).2.
+  sync3 s la lb lc = sync3 s la lc lb /\ sync3 s la lb lc = sync3 s lb la lc
+  /\ sync3 s la lb lc = sync3 s lb lc la /\ sync3 s la lb lc = sync3 s lc la lb
+  /\ sync3 s la lb lc = sync3 s lc lb la.
+Proof. exact order_independent_3. Qed.
+
+(** [sync3] in the vocabulary of [rebase] *)
+Theorem C03_sync3_is_rebase : forall (s : db) (la lb lc : list sop),
+  sync3 s la lb lc =
+  applyl (applyl (applyl s la) (rebase transform la lb).2)
+         (rebase transform (rebase transform la lb).2 (rebase transform la lc).2).2.
+Proof. exact sync3_rebase. Qed.
+
 
 Print Assumptions C03_transform_table.
 Print Assumptions C03_kept_or_documented.
@@ -69,3 +82,6 @@ Print Assumptions C03_transform_symmetric.
 Print Assumptions C03_rebase_symmetric.
 Print Assumptions C03_order_independent_2.
 Print Assumptions C03_causal_override.
+Print Assumptions C03_tp2.
+Print Assumptions C03_order_independent_3.
+Print Assumptions C03_sync3_is_rebase.
